@@ -613,7 +613,19 @@ func checkC13(ctx *Ctx) *Result {
 				wantHV = "slice(" + hostArg + ", _, len:builtin.len(" + k.host(false) + "), _)"
 			}
 			if got := hv.Key(); got != wantHV && got != k.host(false) {
-				bad = "the host pattern kept is not the host as lexed (a trailing dot or the `*.` would be lost or text added): " + got
+				// the same cut offset spelled with other length arithmetic
+				// (e.g. through len(pattern) - len(host-only part))
+				same := false
+				if !(pa.Val(k.isIP(false)) == 1 && !w) && hv.Op == "slice" && len(hv.Args) >= 3 && hv.Args[0].Key() == hostArg && hv.Args[1].Key() == "_" {
+					wantOff := map[string]int64{"len:builtin.len(" + k.host(w) + ")": 1}
+					if w {
+						wantOff[""] = 2
+					}
+					same = sameLin(lenLin(hv.Args[2]), wantOff)
+				}
+				if !same {
+					bad = "the host pattern kept is not the host as lexed (a trailing dot or the `*.` would be lost or text added): " + got
+				}
 			}
 		}
 		// an IP host is classified by netip's IsLoopback and nothing else (the
@@ -802,4 +814,56 @@ func lastAtom(pa *Path) string {
 	}
 	tmp := &Path{Atoms: pa.Atoms[len(pa.Atoms)-1:]}
 	return shortAtoms(tmp) + fmt.Sprintf(" (path with %d conditions)", len(pa.Atoms))
+}
+
+// lenLin flattens a term built from +, -, integer constants and lengths into
+// a linear form (key of the atom → coefficient; "" for the constant), using
+// len(s[c:]) = len(s) - c for a constant c (the paths on which such a slice
+// is taken have established that s is at least c bytes long).
+func lenLin(t *Term) map[string]int64 {
+	out := map[string]int64{}
+	var walk func(t *Term, sign int64)
+	walk = func(t *Term, sign int64) {
+		switch {
+		case t.Op == "const":
+			if c, err := strconv.ParseInt(t.Name, 10, 64); err == nil {
+				out[""] += sign * c
+				return
+			}
+		case t.Op == "bin" && len(t.Args) == 2 && (t.Name == "+" || t.Name == "-"):
+			walk(t.Args[0], sign)
+			if t.Name == "+" {
+				walk(t.Args[1], sign)
+			} else {
+				walk(t.Args[1], -sign)
+			}
+			return
+		case t.Op == "len" && len(t.Args) == 1:
+			a := t.Args[0]
+			if a.Op == "slice" && len(a.Args) >= 3 && a.Args[1].Op == "const" && a.Args[1].Name != "_" && a.Args[2].Key() == "_" {
+				if c, err := strconv.ParseInt(a.Args[1].Name, 10, 64); err == nil {
+					walk(&Term{Op: "len", Name: t.Name, Args: []*Term{a.Args[0]}, Type: t.Type}, sign)
+					out[""] -= sign * c
+					return
+				}
+			}
+		}
+		out[t.Key()] += sign
+	}
+	walk(t, 1)
+	return out
+}
+
+func sameLin(a, b map[string]int64) bool {
+	for k, v := range a {
+		if v != 0 && b[k] != v {
+			return false
+		}
+	}
+	for k, v := range b {
+		if v != 0 && a[k] != v {
+			return false
+		}
+	}
+	return true
 }
